@@ -354,6 +354,33 @@ def valueOr (v : V α) (d : α) : Except Err α := if hasValue v then deref v el
 def andThen {ρ : Type} (v : V α) (f : α → ρ) : Except Err (Option ρ) :=
   if hasValue v then (deref v).map fun x => some (f x) else .ok none
 
+/-- `or_else(f)`: `*this ? *this : f()` (`move(*this)` on an rvalue): the contained value that is copied / moved into
+    the result, or `none` when `f` is called instead -/
+def orElse (v : V α) : Except Err (Option α) := if hasValue v then (deref v).map some else .ok none
+
+/-! ### expected = variant<T, E>, index 0 = value -/
+
+/-- `has_value()`: `_u.index() == 0` -/
+def expHas (v : V α) : Bool := v.idx == 0
+
+/-- `operator*`: `TETL_PRECONDITION(has_value()); _u[index_v<0>]` -/
+def expDeref (v : V α) : Except Err α := if expHas v then getAt v 0 else .error (.pre "expected::operator*: has_value()")
+
+/-- `error()`: `TETL_PRECONDITION(not has_value()); _u[index_v<1>]` -/
+def expError (v : V α) : Except Err α := if expHas v then .error (.pre "expected::error(): not has_value()") else getAt v 1
+
+/-- `value_or(d)`: `static_cast<bool>(*this) ? **this : static_cast<T>(forward<U>(d))` -/
+def expValueOr (v : V α) (d : α) : Except Err α := if expHas v then expDeref v else .ok d
+
+/-- `and_then(f)`: `if (has_value()) return invoke(f, **this); return U(unexpect, error());` — `onErr` is what the
+    propagated error becomes (a copy / move of it inside the new expected) -/
+def expAndThen {ρ : Type} (v : V α) (f : α → ρ) (onErr : α → ρ) : Except Err ρ :=
+  if expHas v then (expDeref v).map f else (expError v).map onErr
+
+/-- `or_else(f)`: `if (has_value()) return G(in_place, **this); return invoke(f, error());` -/
+def expOrElse {ρ : Type} (v : V α) (onVal : α → ρ) (f : α → ρ) : Except Err ρ :=
+  if expHas v then (expDeref v).map onVal else (expError v).map f
+
 /-! ### converting constructor / assignment: which alternative -/
 
 /-- implicit conversion sequence from the argument to one alternative: `rank` 0 exact, 1 promotion,
